@@ -50,7 +50,7 @@ Definition export_txt (p : palette) : str :=
 (* ---- str::lines() ------------------------------------------------------------------------------------ *)
 (* split at '\n'; a line that ended in "\r\n" loses the '\r' too; a last line without '\n' is returned as it is;
    no empty line after a final '\n'.  `cur` is the current line, reversed. *)
-Definition strip_cr (rl : list N) : list N := match rl with 13 :: t => t | _ => rl end.
+Definition strip_cr (rl : list N) : list N := match rl with c :: t => if c =? 13 then t else rl | [] => [] end.
 Fixpoint lines_aux (s : str) (cur : list N) : list str :=
   match s with
   | [] => match cur with [] => [] | _ => [rev cur] end
